@@ -356,7 +356,13 @@ func stringSpans(v *ref.Value) [][2]int {
 
 func mutate(t *rapid.T, text []byte) []byte {
 	out := append([]byte(nil), text...)
-	kind := rapid.IntRange(0, 5).Draw(t, "mutKind")
+	kind := rapid.IntRange(0, 6).Draw(t, "mutKind")
+	if kind == 6 {
+		// a byte order mark (or its first bytes) in front of the text: not part of the JSON grammar
+		run.Label("mut:bom-prefix")
+		bom := []byte{0xEF, 0xBB, 0xBF}
+		return append(bom[:rapid.IntRange(1, 3).Draw(t, "bomLen")], out...)
+	}
 	pos := 0
 	if len(out) > 0 {
 		pos = rapid.IntRange(0, len(out)-1).Draw(t, "mutPos")
